@@ -211,7 +211,7 @@ def fwd_grad_chooser(g, ans, x, axis=None, keepdims=False):
         if isinstance(axis, int):
             ans = anp.expand_dims(ans, axis)
         elif isinstance(axis, tuple):
-            for ax in sorted(axis):
+            for ax in sorted(a % anp.ndim(x) for a in axis):  # re-insert from the front: needs non-negative positions
                 ans = anp.expand_dims(ans, ax)
     chosen_locations = x == ans
     return anp.sum((g * chosen_locations), axis=axis, keepdims=keepdims) / anp.sum(
